@@ -356,6 +356,7 @@ func main() {
 	run.Floor("responses_compared", int64(nConns*2))
 	run.Floor("keepalive_followups", int64(nConns/2))
 	run.Floor("gate_streams_completed", 4)
+	run.Floor("gate_sequences_completed", 4)
 	run.Finish()
 }
 
